@@ -322,13 +322,21 @@ pub fn random_ops(rng: &mut Rng, len: usize, wbits: usize, with_flush: bool) -> 
 }
 
 pub fn run(ctx: &Ctx) -> Report {
-    let mut work: Vec<(En, WWord)> = vec![];
+    let mut work: Vec<(En, Option<WWord>)> = vec![];
     for e in En::BOTH {
         for w in WWord::ALL {
-            work.push((e, w));
+            work.push((e, Some(w)));
         }
+        work.push((e, None));
     }
     let mut rep = par_items(ctx, "C01", &work, |&(e, w), rep| {
+        let w = match w {
+            Some(w) => w,
+            None => {
+                cross_word_size(ctx, e, rep);
+                return;
+            }
+        };
         let wbits = w.bits();
         let mut rng = Rng::derive(ctx.seed, 0xC01 + wbits as u64 + if e == En::BE { 0 } else { 1000 });
         let backends: Vec<WBackend> = vec![WBackend::Rec(None), WBackend::VecOwned, WBackend::Slice(64), WBackend::AdVec, WBackend::AdSink, WBackend::AdShort(3)];
@@ -407,9 +415,18 @@ pub fn run(ctx: &Ctx) -> Report {
         // ---- (4) borrowed storage and Drop: &mut Vec<W> and &mut [W] ----
         borrowed::run(e, w, &mut rng, ctx, rep);
     });
+    if rep.evaluations < 1000 && ctx.tier != Tier::Tiny {
+        rep.inconclusive("too few evaluations".into());
+    }
+    rep
+}
+
+
+/// (5) explicit cross-word-size equality of the real images (no model involved)
+fn cross_word_size(ctx: &Ctx, e: En, rep: &mut Report) {
     // ---- (5) explicit cross-word-size equality of the real images (no model involved) ----
-    let mut rng = Rng::derive(ctx.seed, 0xC01FFFF);
-    for e in En::BOTH {
+    let mut rng = Rng::derive(ctx.seed, 0xC01FFFF + (e == En::LE) as u64);
+    {
         for _ in 0..ctx.pick(2, 200, 5000) {
             let l = 1 + rng.below(40) as usize;
             let ops = random_ops(&mut rng, l, 64, false);
@@ -442,10 +459,6 @@ pub fn run(ctx: &Ctx) -> Report {
             rep.count("cross_word_size_comparisons", images.len() as u64);
         }
     }
-    if rep.evaluations < 1000 && ctx.tier != Tier::Tiny {
-        rep.inconclusive("too few evaluations".into());
-    }
-    rep
 }
 
 pub fn replay(case: &str, rep: &mut Report) {
